@@ -133,3 +133,39 @@ for T, pre, blasfn, mrec, xrec, yrec, mit, xit, yit, scal, conj in (
                         'IMPLIES(g_calls == 1 && g_lda >= MAX1(g_M) && 0 <= g_i && g_i < g_m && 0 <= g_j && g_j < g_n, %s || %s)' % (okN, okT))],
               covers=['g_calls == 1 && g_m > 2 && g_n > 3 && g_m != g_n', 'g_calls == 1 && g_m == 1'],
               assigns=[], mode='uf', objbits=12, timeout=900, cbmc_flags=['--no-pointer-check'], unwind=3, solvers=('minisat',), reject_ok=True)
+
+# ---------------------------------------------------------------------------------------------------------------------
+# gemm with a conjugated OUTPUT view (blas::J(c), complex):  J(c) = alpha*J(a)*J(b) + beta*J(c)  is computed as
+# c = conj(alpha)*a*b + conj(beta)*c on the underlying plain views.  zgemm (the shim core::gemm<complex>) is the recording stub.
+Group('blasz', ['boost/multi/array.hpp', 'boost/multi/adaptors/blas/gemm.hpp', 'boost/multi/adaptors/blas/operations.hpp', 'complex'], profile='O', libs=['-lopenblas'], prelude='''
+using Z = std::complex<double>;
+using ZA = multi::array<Z, 2>;
+using JCA = decltype(multi::blas::J(std::declval<ZA const&>()));
+using JMA = decltype(multi::blas::J(std::declval<ZA&>()));
+''', noinline=[r'4blas4core4gemmISt7complex', r'^_ZNSt7__cxx11', r'^_ZNKSt7__cxx11', r'^_ZSt9to_string', r'^_ZNSt7__cxx119to_string', r'^_ZNSt11logic_error', r'^_ZStplI', r'^_ZNSt15__new_allocator', r'^_ZNSaI', r'^_ZN9__gnu_cxx'],
+   cut=[r'_ZNSt7__cxx11', r'_ZSt9to_string', r'_ZNSt11logic_error', r'__cxa_allocate_exception', r'_ZNSt.*basic_string', r'_ZNSs', r'_ZdlPv', r'_ZSt.*terminate'])
+CGZ = [('g_ta', 0, None), ('g_tb', 1, None), ('g_M', 2, None), ('g_N', 3, None), ('g_K', 4, None), ('g_alpha', 5, None, 'deref'), ('g_X', 6, None, 'ptr'), ('g_ldx', 7, None),
+       ('g_Y', 8, None, 'ptr'), ('g_ldy', 9, None), ('g_beta', 10, None, 'deref'), ('g_Z', 11, None, 'ptr'), ('g_ldz', 12, None)]
+CORE_GEMM_Z = r'void boost::multi::blas::core::gemm<std::complex<double>.*\(char, char, long, long, long, std::complex<double> const\*, .*'
+JRECC = r're:boost::multi::const_subarray<std::complex<double>,2,boost::multi::blas::involuter<conststd::complex<double>\*.*'
+JRECM = r're:boost::multi::subarray<std::complex<double>,2,boost::multi::blas::involuter<std::complex<double>\*.*'
+def jview(v, rows, cols):
+    return ' && '.join(['%s->base_.it_ != 0 && %s->offset_ == 0 && %s->sub_.offset_ == 0 && %s->sub_.sub_.nelems_ == 1' % (v, v, v, v),
+                        '%s->sub_.stride_ == 1 && %s->stride_ >= MAX1(%s) && %s->stride_ < SMALL' % (v, v, cols, v),
+                        '%s->nelems_ == MUL(%s, %s->stride_) && %s->sub_.nelems_ == MUL(%s, %s->sub_.stride_)' % (v, rows, v, v, cols, v)])
+Check('G_gemm_zj_rrr', ['C13'], 'blasz', fn='w_G_gemm_zj_rrr', params=['alpha', 'a', 'b', 'beta', 'c'],
+      wrapper=('void', 'Z const* alpha, JCA const* a, JCA const* b, Z const* beta, JMA* c', 'multi::blas::gemm(*alpha, *a, *b, *beta, *c);'),
+      cxx={'a': JRECC, 'b': JRECC, 'c': JRECM},
+      ghosts=[(I64, 'g_m'), (I64, 'g_n'), (I64, 'g_k')],
+      stubs=[Stub(CORE_GEMM_Z, record=CGZ, count='g_calls')],
+      requires=['1 < g_m && g_m < SMALL && 1 < g_n && g_n < SMALL && 1 < g_k && g_k < SMALL', jview('a', 'g_m', 'g_k'), jview('b', 'g_k', 'g_n'), jview('c', 'g_m', 'g_n'),
+                'a->base_.it_ != c->base_.it_ && b->base_.it_ != c->base_.it_', 'alpha->f0.f0 == alpha->f0.f0 && alpha->f0.f1 == alpha->f0.f1 && beta->f0.f0 == beta->f0.f0 && beta->f0.f1 == beta->f0.f1   /* no NaN: equality of the passed scalars is meaningful */'],
+      lemmas=['LEMMA_MULDIV(g_k, a->sub_.stride_)', 'LEMMA_MULDIV(g_n, b->sub_.stride_)', 'LEMMA_MULDIV(g_n, c->sub_.stride_)', 'LEMMA_MULDIV(g_m, a->stride_)', 'LEMMA_MULDIV(g_k, b->stride_)', 'LEMMA_MULDIV(g_m, c->stride_)', 'LEMMA_MULZERO(g_m, a->stride_)', 'LEMMA_MULZERO(g_k, b->stride_)', 'LEMMA_MULZERO(g_m, c->stride_)',
+              'LEMMA_MULREM(g_m, a->stride_)', 'LEMMA_MULREM(g_k, b->stride_)', 'LEMMA_MULREM(g_m, c->stride_)', 'LEMMA_MUL1(g_m)', 'LEMMA_MUL1(g_n)', 'LEMMA_MUL1(g_k)',
+              'LEMMA_MUL0(a->stride_)', 'LEMMA_MUL0(b->stride_)', 'LEMMA_MUL0(c->stride_)'],
+      ensures=[('exactly one BLAS call', 'EXC != 0 || g_calls == 1'),
+               ('the output is the underlying storage of the conjugated view', 'IMPLIES(g_calls == 1, (void*)g_Z == (void*)c->base_.it_)'),
+               ('conjugated output: alpha and beta are passed conjugated (conj(C) = alpha conj(A) conj(B) + beta conj(C)  iff  C = conj(alpha) A B + conj(beta) C)',
+                'IMPLIES(g_calls == 1, g_alpha.f0.f0 == alpha->f0.f0 && g_alpha.f0.f1 == -alpha->f0.f1 && g_beta.f0.f0 == beta->f0.f0 && g_beta.f0.f1 == -beta->f0.f1)')],
+      covers=['g_calls == 1 && g_m > 2 && g_n > 3'],
+      assigns=[], mode='uf', objbits=12, timeout=900, cbmc_flags=['--no-pointer-check'], unwind=3, solvers=('minisat', 'cadical'), reject_ok=True)
